@@ -513,20 +513,23 @@ class Peer:
 
 
 class TimerMixin:
-    """Lazy timers for peers: (t, seq, fn)."""
+    """Lazy timers for peers: a heap of (t, seq, fn)."""
 
     def _tinit(self):
         self._timers = []
         self._tseq = 0
 
     def at(self, t, fn):
+        import heapq
+
         self._tseq += 1
-        self._timers.append((t, self._tseq, fn))
-        self._timers.sort(key=lambda x: (x[0], x[1]))
+        heapq.heappush(self._timers, (t, self._tseq, fn))
 
     def run_timers(self, now):
+        import heapq
+
         while self._timers and self._timers[0][0] <= now:
-            t, _, fn = self._timers.pop(0)
+            t, _, fn = heapq.heappop(self._timers)
             fn(t)
 
     def next_timer(self):
